@@ -105,6 +105,9 @@ func runC10n(c *ctxT, n int) {
 			inner = k.hdr + 1 + r.Intn(180)
 		}
 		c10Case(c, r.Fork(), k, inner)
+		if i%6 == 0 {
+			fragSlowReceiver(c, r.Fork())
+		}
 	}
 }
 
@@ -202,10 +205,14 @@ func c10Case(c *ctxT, r *gen.R, k fragLayerKind, inner int) {
 	}
 	var sched []int
 	dropped, dups := 0, 0
+	firstLost := false // a fragment of the very first message is lost: its partial state stays behind
 	for _, i := range order {
 		switch r.Intn(12) {
 		case 0:
 			dropped++
+			if msgOf[i] == 0 {
+				firstLost = true
+			}
 			continue // lost
 		case 1, 2:
 			sched = append(sched, i)
@@ -221,8 +228,22 @@ func c10Case(c *ctxT, r *gen.R, k fragLayerKind, inner int) {
 		sched = append(sched, r.Intn(len(pool)))
 		dups++
 	}
-	if k.name == "fragswarm" && firstNode != nil && firstSize > part && r.Intn(2) == 0 {
-		// the first source restarts: a new layer on the same address numbers its messages from the start again
+	firstOnce := !firstLost // every fragment of the first message is delivered exactly once
+	occ := map[int]int{}
+	for _, i := range sched {
+		occ[i]++
+	}
+	for i := range pool {
+		if msgOf[i] == 0 && occ[i] != 1 {
+			firstOnce = false
+		}
+	}
+	if k.name == "frag" && firstNode != nil && firstSize > part && firstOnce && r.Intn(2) == 0 {
+		// the first source restarts: a new layer on the same address numbers its messages from the start again.
+		// (Only when every fragment of its first message arrived exactly once: fragswarm tells messages apart by
+		// source and id alone, so a restarted sender's fragments DO mix with whatever a lost or duplicated fragment
+		// of an old message with that id left behind, until the cleanup a minute later; sender restarts are outside
+		// what C10 quantifies over.)
 		su2 := k.wrap(firstNode, cfgMTU)
 		payload := patBytes(uint64(serial)*37+11, firstSize)
 		payload[0], payload[1] = byte(serial), 0xEE
